@@ -33,6 +33,7 @@ MonStreamTx(m, e) ==
   CASE e.cmd = "OPEN" ->
          IF l = Zero THEN Bad(m, "C14.IdNonZero")
          ELSE IF Live(m, l) THEN Bad(m, "C14.UniqueLiveIds")
+         ELSE IF l \in DOMAIN m.st THEN Bad(m, "C04.FreshId")      \* "a fresh local id": never the id of an earlier OPEN of this history, even a closed or refused one
          ELSE IF e.a1 # Zero THEN Bad(m, "C04.OpenArg1")
          ELSE IF ~e.nul THEN Bad(m, "C04.OpenNul")
          ELSE [m EXCEPT !.st = Upd(m.st, l, NewStream(e.t, CallNo(m, e.t)))]
